@@ -118,6 +118,7 @@ def check_case(case):
                 if m:
                     warned.add(m.group(1))
             nreg = 0
+            twin_positions = {(a.chain, a.resnum) for a in common.twin_atoms(entries)}
             for key, info in reg.items():
                 t = info["resname"]
                 at = {a.aname: index[id(a)] for a in info["atoms"]}
@@ -142,6 +143,8 @@ def check_case(case):
                         v.append({"clause": "complement", "detail": "regular %s %s%d%s: %s %d, expected %d" % (
                             t, key[0], key[1], key[2].strip(), what, got, exp)})
                 chain = key[0].strip() or "_"
+                if (key[0], key[1]) in twin_positions:
+                    continue        # the warning names residues by chain+number only: cannot be attributed to a twin
                 for lab in warned:
                     if lab[3:] == "%4d%2s" % (key[1], chain) and key[2] == " " and lab[:3].strip() in (t, "N+", "C-"):
                         v.append({"clause": "no-warning-for-regular-residue", "detail": "warning issued for %r although "
